@@ -36,6 +36,7 @@ const (
 	EvCompact
 	EvTransfer
 	EvUnreachable // the transport reports that it could not send to a replica (rafthttp does on a failed send)
+	EvDeliverPair // a snapshot message and another message to the same replica are both queued when it steps (one Ready)
 )
 
 // crash modes carried in the C field of a node event
@@ -47,7 +48,7 @@ const (
 )
 
 var kindNames = map[int]string{EvTick: "tick", EvTimeout: "timeout", EvDeliver: "deliver", EvDeliverDup: "deliver-dup",
-	EvDrop: "drop", EvPropose: "propose", EvConf: "conf", EvCrash: "crash", EvRestart: "restart", EvCompact: "compact", EvTransfer: "transfer", EvUnreachable: "unreachable"}
+	EvDrop: "drop", EvPropose: "propose", EvConf: "conf", EvCrash: "crash", EvRestart: "restart", EvCompact: "compact", EvTransfer: "transfer", EvUnreachable: "unreachable", EvDeliverPair: "deliver-pair"}
 
 func Ev(kind, a, b, c int) uint32 { return uint32(kind)<<24 | uint32(a)<<12 | uint32(b)<<4 | uint32(c) }
 func unEv(e uint32) (kind, a, b, c int) {
@@ -62,22 +63,23 @@ const (
 )
 
 type Config struct {
-	Name        string
-	N           int    // initial voters 1..N
-	Spare       string // "", "voter", "learner": extra replica N+1 started without peers (join)
-	PreVote     bool
-	CheckQuorum bool
-	Storage     string // "mem" | "rocks"
-	ET          []int  // election tick per replica (default 2)
-	MaxSizeOne  bool   // MaxSizePerMsg = MaxCommittedSizePerReady = 0 → one entry per message / Ready page
-	MixedSizes  bool   // MaxSizePerMsg = MaxCommittedSizePerReady = 100 bytes and proposals of 1 / 200 / 1 / 200 ... bytes
+	Name            string
+	N               int    // initial voters 1..N
+	Spare           string // "", "voter", "learner": extra replica N+1 started without peers (join)
+	PreVote         bool
+	CheckQuorum     bool
+	Storage         string // "mem" | "rocks"
+	ET              []int  // election tick per replica (default 2)
+	MaxSizeOne      bool   // MaxSizePerMsg = MaxCommittedSizePerReady = 0 → one entry per message / Ready page
+	EarlySnapReport bool   // the transport reports a snapshot as sent when it leaves the sender, not when the receiver has stepped it
+	MixedSizes      bool   // MaxSizePerMsg = MaxCommittedSizePerReady = 100 bytes and proposals of 1 / 200 / 1 / 200 ... bytes
 
 	// budgets
-	MaxDup, MaxDrop, MaxCrash, MaxProp, MaxConf, MaxCompact, MaxTransfer, MaxTick, MaxUnreach int
-	CrashModes                                                                                []int // additional in-step crash modes enabled
-	UseTimeout                                                                                bool
-	UseTick                                                                                   bool
-	MaxTerm                                                                                   uint64 // ticks/timeouts are disabled for a non-leader replica whose term reached this (0 = 4)
+	MaxDup, MaxDrop, MaxCrash, MaxProp, MaxConf, MaxCompact, MaxTransfer, MaxTick, MaxUnreach, MaxPair int
+	CrashModes                                                                                         []int // additional in-step crash modes enabled
+	UseTimeout                                                                                         bool
+	UseTick                                                                                            bool
+	MaxTerm                                                                                            uint64 // ticks/timeouts are disabled for a non-leader replica whose term reached this (0 = 4)
 }
 
 type rnode struct {
@@ -108,11 +110,12 @@ type entryID struct {
 }
 
 type Cluster struct {
-	cfg     *Config
-	nodes   []*rnode
-	net     []netMsg
-	used    struct{ dup, drop, crash, prop, conf, compact, transfer, tick, unreach int }
-	propSeq int
+	cfg          *Config
+	nodes        []*rnode
+	net          []netMsg
+	used         struct{ dup, drop, crash, prop, conf, compact, transfer, tick, unreach, pair int }
+	propSeq      int
+	earlyReports [][2]uint64 // (sender, receiver) of snapshots whose "sent" report is due after the current pump
 
 	// oracle history variables
 	leaderOf map[uint64]uint64
@@ -385,6 +388,9 @@ func (c *Cluster) sendAll(nd *rnode, msgs []pb.Message) {
 			continue
 		}
 		c.send(m)
+		if m.Type == pb.MsgSnap && c.cfg.EarlySnapReport {
+			c.earlyReports = append(c.earlyReports, [2]uint64{nd.id, m.To})
+		}
 	}
 }
 
@@ -604,7 +610,7 @@ func (c *Cluster) Apply(ev uint32) {
 		}
 		nd.n.Step(ctx, m)
 		c.pump(nd, cm)
-		if m.Type == pb.MsgSnap {
+		if m.Type == pb.MsgSnap && !c.cfg.EarlySnapReport {
 			// transport reports the outcome of the out-of-band snapshot transfer to the sender
 			if s := c.node(m.From); s != nil && s.alive {
 				s.n.ReportSnapshot(m.To, groupOf(m.To), raft.SnapshotFinish)
@@ -657,6 +663,25 @@ func (c *Cluster) Apply(ev uint32) {
 			panic(fmt.Sprintf("Compact(%d): %v", nd.applied, err))
 		}
 		c.shadowCheck(nd)
+	case EvDeliverPair:
+		c.used.pair++
+		// a and b index the network before either message is taken (a: the snapshot, b: the other one)
+		first := c.take(a, true)
+		second := c.take(b, true)
+		if a > b {
+			c.take(a, false)
+			c.take(b, false)
+		} else {
+			c.take(b, false)
+			c.take(a, false)
+		}
+		nd := c.node(first.To)
+		if nd == nil || !nd.alive {
+			return
+		}
+		nd.n.Step(ctx, first)
+		nd.n.Step(ctx, second)
+		c.pump(nd, CrashNone)
 	case EvUnreachable:
 		nd := c.nodes[a-1]
 		c.used.unreach++
@@ -670,6 +695,16 @@ func (c *Cluster) Apply(ev uint32) {
 	default:
 		panic(fmt.Sprintf("bad event %x", ev))
 	}
+	// snapshots that left their sender during this event: the transport reports them as sent
+	for n := 0; len(c.earlyReports) > 0 && n < 8; n++ {
+		r := c.earlyReports[0]
+		c.earlyReports = c.earlyReports[1:]
+		if s := c.node(r[0]); s != nil && s.alive {
+			s.n.ReportSnapshot(r[1], groupOf(r[1]), raft.SnapshotFinish)
+			c.pump(s, CrashNone)
+		}
+	}
+	c.earlyReports = nil
 }
 
 func (c *Cluster) crashBudget(cm int) {
@@ -771,6 +806,21 @@ func (c *Cluster) Enabled() []uint32 {
 	if c.used.drop < cf.MaxDrop {
 		for k := range c.net {
 			evs = append(evs, Ev(EvDrop, k, 0, 0))
+		}
+	}
+	if c.used.pair < cf.MaxPair {
+		for k, m := range c.net {
+			if m.m.Type != pb.MsgSnap || k > 4000 {
+				continue
+			}
+			if d := c.node(m.m.To); d == nil || !d.alive {
+				continue
+			}
+			for j, o := range c.net {
+				if j != k && j < 250 && o.m.To == m.m.To {
+					evs = append(evs, Ev(EvDeliverPair, k, j, 0))
+				}
+			}
 		}
 	}
 	for _, nd := range c.nodes {
@@ -912,7 +962,7 @@ func (c *Cluster) Key() explore.Key {
 	}
 	e.Tag("budget")
 	u := c.used
-	for _, x := range []int{u.dup, u.drop, u.crash, u.prop, u.conf, u.compact, u.transfer, u.unreach, c.propSeq} {
+	for _, x := range []int{u.dup, u.drop, u.crash, u.prop, u.conf, u.compact, u.transfer, u.unreach, u.pair, c.propSeq} {
 		e.U64(uint64(x))
 	}
 	if c.cfg.MaxTick > 0 {
@@ -961,6 +1011,8 @@ func (c *Cluster) Describe(ev uint32) string {
 		s += fmt.Sprintf(" at %d %s target %d", a, []string{"add-voter", "add-learner", "remove", "?"}[b&3], b>>2)
 	case EvTransfer, EvUnreachable:
 		s += fmt.Sprintf(" %d->%d", a, b)
+	case EvDeliverPair:
+		s += fmt.Sprintf(" #%d then #%d", a, b)
 	default:
 		s += fmt.Sprintf(" %d", a)
 	}
